@@ -212,23 +212,51 @@ def analyse(getter, stmts, analyzer=None):
 
 
 def base_tables(stmts):
-    """independent reading of the statement: the FROM / JOIN table names (and the INSERT target when it has no column list),
-    with the names of WITH tables and of derived tables, in the canonical spelling `schema.table` / `table`"""
+    """independent, scope-aware reading of the statements: the FROM / JOIN names that denote BASE tables (a schema-less name denotes a WITH
+    table only where that WITH table is visible: in later WITH definitions of the same clause, in the body, and in everything nested in
+    them — not in its own definition and not in earlier ones), the WITH names, the derived-table aliases and the INSERT targets without
+    column list; names in the canonical spelling `schema.table` / `table`"""
+    import dataclasses
     from metasequoia_sql.core import node as N
     named, withs, derived, targets = set(), set(), set(), set()
+
+    def walk(v, visible):
+        if isinstance(v, (tuple, list)):
+            for x in v:
+                walk(x, visible)
+            return
+        if not is_dataclass_instance(v):
+            return
+        if isinstance(v, N.ASTFromTable):
+            if isinstance(v.name, N.ASTTableNameExpression):
+                if v.name.schema_name is None and v.name.table_name in visible:
+                    return                      # a reference to a WITH table
+                named.add((v.name.schema_name + "." if v.name.schema_name else "") + v.name.table_name)
+                return
+            if v.alias is not None:
+                derived.add(v.alias.name)
+        wc = getattr(v, "with_clause", None) if any(f.name == "with_clause" for f in dataclasses.fields(v)) else None
+        vis = visible
+        if isinstance(wc, N.ASTWithClause):
+            for wt in wc.tables:
+                walk(wt.statement, vis)
+                withs.add(wt.name)
+                vis = vis | {wt.name}
+        for f in dataclasses.fields(v):
+            if f.name != "with_clause":
+                walk(getattr(v, f.name), vis)
+
     for st in stmts:
-        for n in canon.walk_nodes(st):
-            if isinstance(n, N.ASTFromTable):
-                if isinstance(n.name, N.ASTTableNameExpression):
-                    named.add((n.name.schema_name + "." if n.name.schema_name else "") + n.name.table_name)
-                elif n.alias is not None:
-                    derived.add(n.alias.name)
-            elif isinstance(n, N.ASTWithTable):
-                withs.add(n.name)
+        walk(st, frozenset())
         if isinstance(st, N.ASTInsertSelectStatement) and st.columns is None:
             t = st.table_name
             targets.add((t.schema_name + "." if t.schema_name else "") + t.table_name)
     return named, withs, derived, targets
+
+
+def is_dataclass_instance(v):
+    import dataclasses
+    return dataclasses.is_dataclass(v) and not isinstance(v, type)
 
 
 def cmd_lin(parts):
